@@ -38,12 +38,19 @@ def compressed_attacks():
     total = 0
     for lvl in range(300):
         inner = bytes([80]) + struct.pack(">I", len(inner)) + zlib.compress(inner, 1)
-        if lvl in (1, 10, 100, 255, 256, 299):
+        if lvl in (1, 10, 29, 39, 59, 100, 199, 254, 255, 256, 299):
             out.append({"why": f"COMPRESSED nested {lvl + 1} levels", "bytes": [131] + list(inner), "inflated": 400 * (lvl + 1)})
+    # ... and alternating with a one-element list / a one-element tuple (every declared size exact)
+    for wrap, name in ((lambda x: bytes([108, 0, 0, 0, 1]) + x + bytes([106]), "list"), (lambda x: bytes([104, 1]) + x, "tuple")):
+        inner = term
+        for lvl in range(150):
+            inner = wrap(bytes([80]) + struct.pack(">I", len(inner)) + zlib.compress(inner, 1))
+            if lvl in (9, 29, 59, 99, 126, 127, 149):
+                out.append({"why": f"COMPRESSED inside a one-element {name}, nested {lvl + 1} times", "bytes": [131] + list(inner), "inflated": 500 * (lvl + 1)})
     return out
 
 
-def run_inputs(v, inputs, tag, timeout=1800, debug=False):
+def run_inputs(v, inputs, tag, timeout=1800, debug=False, profile=None):
     """run the attack runner over `inputs`, restarting after every crash; returns observations by index"""
     ip = os.path.join(lib.outdir(PID), f"inputs_{tag}.ndjson")
     lib.write_ndjson(ip, inputs)
@@ -55,7 +62,7 @@ def run_inputs(v, inputs, tag, timeout=1800, debug=False):
         rounds += 1
         op = os.path.join(lib.outdir(PID), f"obs_{tag}_{rounds}.ndjson")
         pf = os.path.join(lib.outdir(PID), f"progress_{tag}")
-        rc, out = lib.harness(["attack-run", ip, op, pf, skip, STACK], check=False, timeout=timeout, release=not debug)
+        rc, out = lib.harness(["attack-run", ip, op, pf, skip, STACK], check=False, timeout=timeout, release=profile or (not debug))
         if os.path.exists(op):
             for line in open(op):
                 try:
@@ -196,6 +203,15 @@ def run(tier, seed):
         missing = len(inputs) - len(obs) - len(crashes)
         if missing > 0 and len(crashes) <= 40:
             raise lib.ToolError(f"attack runner lost {missing} observations in set {tag}")
+    # stack use depends on how the code is built: the nesting and compressed sets again under the release settings the workspace
+    # under test declares for itself (opt-level 3, lto, one codegen unit)
+    for tag, inputs in (("nest", templates), ("compressed", comp)):
+        obs, crashes = run_inputs(v, inputs, tag + "_asrepo", profile="asrepo")
+        total_crashes += len(crashes)
+        judge(v, inputs, obs, crashes, tag + " (workspace release profile)")
+        v.cov["input_sets"][tag + "_asrepo"] = {"inputs": len(inputs), "observed": len(obs), "crashes": len(crashes)}
+        if len(inputs) - len(obs) - len(crashes) > 0 and len(crashes) <= 40:
+            raise lib.ToolError(f"attack runner lost observations in set {tag} (workspace release profile)")
     if thorough:
         # the same nest templates under a dev build (larger frames) of the code under test
         obs, crashes = run_inputs(v, templates, "nest_debug", debug=True)
